@@ -9,6 +9,7 @@ import os
 from ..engine import VERIF, load_json
 from ..facts import site
 from ..symx import cshow, paths_of, tshow
+from ..terms import subterms  # noqa: E402
 from ..terms import (display_norm, flatten_fmt, is_call, pat_is_catchall, pat_is_none, pat_is_some, pat_some_lit, same,
                      term_callees)
 
@@ -82,6 +83,44 @@ def classify(path):
                         else:
                             scheme = "*" if scheme is None else scheme
     return scheme, explicit, has_auth, problems
+
+
+URI_PARSE_OK = {"parse", "from_str", "try_from", "try_into", "into", "from", "clone", "as_str", "as_ref", "to_owned", "to_string", "deref"}
+
+
+def check_util_target(run, U, rule="R-SCHEMETABLE"):
+    """ipputil: the uri given on the command line is parsed and handed to the client builder unchanged."""
+    nb = U.body("ipputil::new_client")
+    if nb is None:
+        run.anchor_lost(rule, "ipputil::new_client")
+        return
+    pname = nb["params"][0].get("name")
+    n = 0
+    for p in paths_of(nb):
+        for t in p.trace:
+            if is_call(t) and t[1].endswith(("::IppClient::builder", "::IppClient::new")):
+                n += 1
+                a = display_norm(t[2][0])
+                while is_call(a) and a[1].split("::")[-1] in ("clone", "into", "from", "to_owned", "as_ref", "borrow") and a[2]:
+                    a = display_norm(a[2][0])
+                run.ob(rule, "ipputil::new_client builds the client for the uri it was given", a == ("var", pname),
+                       "the client is built for %s, not for the target given on the command line (scheme, port, user-info or query of the contacted URL change)" % tshow(t[2][0])[:120],
+                       site(nb, t[3]), key="%s|ipputil::new_client|target" % rule)
+    run.floor(rule, n, 1, "client constructions in ipputil::new_client")
+    m = 0
+    for path, body in sorted(U.hir.items()):
+        if not path.startswith("ipputil::do_"):
+            continue
+        for p in paths_of(body):
+            for t in p.trace:
+                if is_call(t, "ipputil::new_client"):
+                    m += 1
+                    a = t[2][0]
+                    names = {x[1].split("::")[-1] for x in subterms(a) if x[0] == "call"}
+                    src = [x for x in subterms(a) if x[0] == "field" and x[2] == "uri"]
+                    run.ob(rule, "%s: the command's uri is parsed and passed on unchanged" % path.split("::")[-1], bool(src) and names <= URI_PARSE_OK,
+                           "new_client receives %s" % tshow(a)[:120], site(body, t[3]), key="%s|%s|target-arg" % (rule, path))
+    run.floor(rule, m, 6, "new_client call sites in ipputil")
 
 
 def check(run, views, tier):
@@ -167,6 +206,8 @@ def check(run, views, tier):
             run.ob("R-SCHEMETABLE", "scheme %s handled with and without explicit port" % s, seen.get(s) == {True, False},
                    "paths found for explicit-port cases %s" % sorted(seen.get(s, [])), site(b))
         run.floor("R-SCHEMETABLE", len(paths), 5, "paths through " + FN)
+        if "ipputil" in crates:
+            check_util_target(run, crates["ipputil"])
         # the URL is computed from the target the caller configured: nobody rewrites the stored uri
         from .c11 import check_config_writers
         check_config_writers(run, F)
